@@ -257,6 +257,9 @@ func init() {
 					add(c)
 				default:
 					c := rCase{Fields: []rField{{F: 0, Cont: "default"}, {F: 1, Cont: "ac_matcher"}, {F: 2, Cont: "ac_matcher"}}, Docs: docs}
+					if len(docs) > 1 && i%2 == 0 { // add, build, add, build: keywords first seen after a build
+						c.Rebuild = 1 + r.Intn(len(docs)-1)
+					}
 					for _, q := range qs {
 						op := "retrieve"
 						if r.Bool() {
